@@ -45,6 +45,17 @@ try:
     assert r.returncode == 0, r.stderr
     r = sh(["/venv/bin/python", "-m", "compileall", "-q", os.path.join(wt, "inferno")], env=env)
     out["compiles"] = r.returncode == 0
+    prev = meta.get("confirmation", {})
+    demo_only = "--demo-only" in sys.argv and prev.get("suite_passes")
+    if demo_only:
+        # the pinned suite and the checks were already run for this patch: only the demonstration is repeated
+        out["suite"], out["suite_passes"], out["checks"] = prev["suite"], True, prev.get("checks", {})
+        out["note"] = "demo re-run after removing a worktree-path assertion from the submitted demo; suite/check results from the first confirmation"
+        r = demo(env)
+        out["demo_with_patch"] = "fail" if r.returncode != 0 else "PASSES (change not demonstrated)"
+        out["demo_with_patch_tail"] = (r.stdout + r.stderr)[-600:]
+        out["confirmed"] = bool(out["demo_without_patch"] == "pass" and out["compiles"] and out["demo_with_patch"] == "fail")
+        raise AssertionError("demo-only")
     t0 = time.time()
     r = sh(["/venv/bin/python", "-m", "pytest", "-q", "-p", "no:cacheprovider", "--timeout=900", "-x" if False else "-q",
             f"--junitxml={wt}/junit.xml"], env=env, cwd=wt)
@@ -100,8 +111,9 @@ try:
                                   "first": lines[:2], "stderr_tail": r.stderr[-300:] if r.returncode not in (0, 1) else ""}
     out["confirmed"] = bool(out["demo_without_patch"] == "pass" and out["compiles"] and out["suite_passes"] and out["demo_with_patch"] == "fail")
 except AssertionError as e:
-    out["error"] = str(e)
-    out["confirmed"] = False
+    if str(e) != "demo-only":
+        out["error"] = str(e)
+        out["confirmed"] = False
 finally:
     sh(["git", "-C", "/repo", "worktree", "remove", "--force", wt])
     shutil.rmtree(wt, ignore_errors=True)
